@@ -62,9 +62,10 @@ def _strip_filters(b, t):
     while True:
         guard = None
         inner = t
-        if t[0] == "phi" and t[1][0] == "cmp" and t[1][1] in ("is not", "isnot") and t[1][3] == NONE and t[1][2][0] == "attr" \
+        if t[0] == "phi" and t[1][0] == "cmp" and t[1][1] in ("is not", "isnot", "is") and t[1][3] == NONE and t[1][2][0] == "attr" \
                 and t[1][2][2] in ("start_date", "end_date"):
-            guard, inner = t[1][2][2], t[2]
+            # the branch taken when the bound is set (the def-use engine writes `X is not None` as `X is None` with the branches exchanged)
+            guard, inner = t[1][2][2], (t[3] if t[1][1] == "is" else t[2])
         if inner[0] == "call" and inner[1] == ("global", "list") and len(inner[2]) == 1:
             inner = inner[2][0]
         pred = src = None
@@ -76,7 +77,7 @@ def _strip_filters(b, t):
             src = inner[3][0][1]
         if pred is None:
             return t, preds
-        if guard is not None and t[3] != src:
+        if guard is not None and (t[2] if t[1][1] == "is" else t[3]) != src:
             return t, preds  # the two branches are different lists: not an optional filter
         which = guard
         if which is None:
@@ -408,8 +409,8 @@ def check(ctx):
         buf = (fu[2][2] if len(fu[2]) > 2 else dict(fu[3]).get("fileobj")) if isdl else None
         extra = dict(fu[3]).get("extra_args") if isdl else None
         want_set = ("mut", None, "setdefault", (("const", "VersionId"), ("sub", VER, ("const", "VersionId"))), ())
-        bound = extra is not None and any(x[0] == "phi" and x[1] == ("cmp", "is not", VER, ("const", None)) and x[2][0] == "mut" and x[2][2:] == want_set[2:]
-                                          for x in ir.walk(extra))
+        bound = extra is not None and any(x[0] == "phi" and x[1] == ("cmp", "is", VER, ("const", None)) and x[3][0] == "mut" and x[3][2:] == want_set[2:]
+                                          for x in ir.walk(extra))  # the branch for `version is not None` (canonical polarity: `is None`, second branch)
         ok = v == VER and fresh and isdl and buf == d and bound
     ctx.ob("C19.R6.request", f"{mk.qualname}|request bound to its version", ok, mk.where(),
            "the returned buffer is the one the download of version['VersionId'] writes to" if ok
